@@ -142,6 +142,12 @@ func (fr *FileReader) readNextBlock() (*Block, error) {
 	// Read compressed data
 	compressedData := make([]byte, blockHeader.CompressedSize)
 	if _, err := io.ReadFull(fr.file, compressedData); err != nil {
+		if errors.Is(err, io.ErrUnexpectedEOF) {
+			// The file ends inside this block's payload: the block was being
+			// appended when the process or machine died. A torn final block is
+			// the end of the log, exactly like a torn block header above.
+			return nil, io.EOF
+		}
 		return nil, err
 	}
 	// Parse block
